@@ -7,6 +7,9 @@
 #include <binlog/PrettyPrinter.hpp>
 #include <binlog/TextOutputStream.hpp>
 #include <binlog/detail/SegmentedMap.hpp>
+#include <binlog/ToStringVisitor.hpp>
+#include <binlog/detail/OstreamBuffer.hpp>
+#include <mserialize/visit.hpp>
 
 #include <printers.hpp>
 
@@ -35,6 +38,39 @@ static std::string hex(const std::string& s)
 static std::string hex(const char* p, std::size_t n) { return hex(std::string(p, n)); }
 
 static std::string argsHex(binlog::Range r) { const std::size_t n = r.size(); return hex(r.view(n), n); }
+
+static std::string rawnum(const void* p, std::size_t n)
+{
+  unsigned char b[16] = {0}; memcpy(b, p, n);
+  unsigned __int128 v = 0; for (std::size_t i = n; i-- > 0; ) { v = (v << 8) | b[i]; }
+  if (v == 0) return "0";
+  std::string r; while (v != 0) { r.insert(r.begin(), char('0' + int(v % 10))); v /= 10; }
+  return r;
+}
+struct VisitRecorder
+{
+  std::ostringstream o; bool first = true;
+  void sep() { if (!first) o << ','; first = false; }
+  template <typename T> void leaf(char c, T v) { sep(); o << 'A' << c << rawnum(&v, sizeof(T)); }
+  void visit(bool v) { leaf('y', v); } void visit(char v) { leaf('c', v); }
+  void visit(std::int8_t v) { leaf('b', v); } void visit(std::int16_t v) { leaf('s', v); } void visit(std::int32_t v) { leaf('i', v); } void visit(std::int64_t v) { leaf('l', v); }
+  void visit(std::uint8_t v) { leaf('B', v); } void visit(std::uint16_t v) { leaf('S', v); } void visit(std::uint32_t v) { leaf('I', v); } void visit(std::uint64_t v) { leaf('L', v); }
+  void visit(float v) { leaf('f', v); } void visit(double v) { leaf('d', v); } void visit(long double v) { leaf('D', v); }
+  template <typename In> bool visit(mserialize::Visitor::SequenceBegin sb, In&) { sep(); o << '[' << sb.size << ':' << hex(std::string(sb.tag.data(), sb.tag.size())); return false; }
+  void visit(mserialize::Visitor::SequenceEnd) { sep(); o << ']'; }
+  template <typename In> bool visit(mserialize::Visitor::TupleBegin tb, In&) { sep(); o << '(' << hex(std::string(tb.tag.data(), tb.tag.size())); return false; }
+  void visit(mserialize::Visitor::TupleEnd) { sep(); o << ')'; }
+  template <typename In> bool visit(mserialize::Visitor::VariantBegin vb, In&) { sep(); o << '<' << vb.discriminator << ':' << hex(std::string(vb.tag.data(), vb.tag.size())); return false; }
+  void visit(mserialize::Visitor::VariantEnd) { sep(); o << '>'; }
+  void visit(mserialize::Visitor::Null) { sep(); o << '0'; }
+  template <typename In> bool visit(mserialize::Visitor::StructBegin sb, In&) { sep(); o << '{' << hex(std::string(sb.name.data(), sb.name.size())) << ':' << hex(std::string(sb.tag.data(), sb.tag.size())); return false; }
+  void visit(mserialize::Visitor::StructEnd) { sep(); o << '}'; }
+  void visit(mserialize::Visitor::FieldBegin fb) { sep(); o << 'F' << hex(std::string(fb.name.data(), fb.name.size())) << ':' << hex(std::string(fb.tag.data(), fb.tag.size())); }
+  void visit(mserialize::Visitor::FieldEnd) { sep(); o << 'f'; }
+  void visit(mserialize::Visitor::Enum e) { sep(); o << 'E' << hex(std::string(e.name.data(), e.name.size())) << ':' << hex(std::string(e.enumerator.data(), e.enumerator.size())) << ':' << e.tag << ':' << hex(std::string(e.value.data(), e.value.size())); }
+  void visit(mserialize::Visitor::RepeatBegin rb) { sep(); o << 'R' << rb.size; }
+  void visit(mserialize::Visitor::RepeatEnd re) { sep(); o << 'r' << re.size; }
+};
 
 static std::string errToken(const std::exception& ex)
 {
@@ -239,6 +275,18 @@ int main()
       }
       if (!first) res << ' ';
       res << endtok;
+    }
+    else if (mode == "visit")
+    {
+      // mserialize::visit on an arbitrary (possibly hand-written or hostile) tag and arbitrary bytes
+      const std::string tag = arg(0), bytes = arg(1);
+      { VisitRecorder rec; binlog::Range in(bytes.data(), bytes.size());
+        try { mserialize::visit(mserialize::string_view(tag.data(), tag.size()), rec, in); res << "ok " << rec.o.str() << ';' << in.size(); }
+        catch (const std::exception&) { res << "err " << rec.o.str(); } }
+      { std::ostringstream text; binlog::Range in(bytes.data(), bytes.size()); bool ok = true;
+        { binlog::detail::OstreamBuffer buf(text); binlog::ToStringVisitor v(buf);
+          try { mserialize::visit(mserialize::string_view(tag.data(), tag.size()), v, in); } catch (const std::exception&) { ok = false; } }
+        res << (ok ? " ok " : " err ") << hex(text.str()); }
     }
     else if (mode == "segmap")
     {
